@@ -49,6 +49,35 @@ pub fn exec_proj<S: Sc + BaseFloat>(op: &str, fm: &str, a: &[Val<S>]) -> Option<
             let between = part <= whole + 1.0e-9 && arc(&rv, &bv) <= whole + 1.0e-9;
             Tup(vec![I(unit_dev), I(err_nano), I(coplanar), B(between)])
         }
+        // slerp between a basis quaternion a (one component +-1) and b = +-(a * half turn about a coordinate axis), built natively:
+        // b carries the rounding residue of cos(90 deg) (6e-17 in f64), so a.b is tiny but NOT zero, and because a has a single
+        // non-zero component the dot product is computed without rounding: its sign is known exactly to the recorder.
+        ("slerp_axis_proj", [I(bi), I(sg), I(ax), B(neg), N(t)]) => {
+            let one = S::one();
+            let z = S::zero();
+            let s1 = if *sg < 0 { -one } else { one };
+            let a = match bi { 0 => Quaternion::new(s1, z, z, z), 1 => Quaternion::new(z, s1, z, z), 2 => Quaternion::new(z, z, s1, z), _ => Quaternion::new(z, z, z, s1) };
+            let half: Deg<S> = Deg(NumCast::from(180.0f64).unwrap());
+            let h: Quaternion<S> = match ax { 0 => Rotation3::from_angle_x(half), 1 => Rotation3::from_angle_y(half), _ => Rotation3::from_angle_z(half) };
+            let mut b = a * h;
+            if *neg { b = -b; }
+            let r = a.slerp(b, *t);
+            let (av, mut bv, rv, tt) = (qv(&a), qv(&b), qv(&r), f(*t));
+            // exact sign of a.b: the only non-zero term is (+-1) * b_i
+            let exact = av.iter().zip(bv.iter()).map(|(x, y)| x * y).fold(0.0f64, |acc, v| if v != 0.0 { v } else { acc });
+            let both = exact == 0.0;
+            if exact < 0.0 { for c in bv.iter_mut() { *c = -*c; } }
+            let whole = arc(&av, &bv);
+            let part = arc(&av, &rv);
+            let mut err = (part - tt * whole).abs();
+            let mut between = part <= whole + 1.0e-9 && arc(&rv, &bv) <= whole + 1.0e-9;
+            if both {
+                let nb: [f64; 4] = [-bv[0], -bv[1], -bv[2], -bv[3]];
+                let e2 = (part - tt * arc(&av, &nb)).abs();
+                if e2 < err { err = e2; between = part <= arc(&av, &nb) + 1.0e-9 && arc(&rv, &nb) <= arc(&av, &nb) + 1.0e-9; }
+            }
+            Tup(vec![I(ceil_i((norm4(&rv) - 1.0).abs() / eps)), I(ceil_i(err / 1.0e-9)), I(0), B(between)])
+        }
         // Deg -> Rad -> Deg (or the reverse) relative error in units of the scalar's epsilon
         ("unit_roundtrip", [T(unit), N(x)]) => {
             let back: S = if unit == "Deg" { let r: Rad<S> = Deg(*x).into(); let d: Deg<S> = r.into(); d.0 } else { let d: Deg<S> = Rad(*x).into(); let r: Rad<S> = d.into(); r.0 };
